@@ -424,6 +424,14 @@ func RunStream(c *Ctx, cfg StreamCfg, handle func(w *Worker, sc StrCase, res *[s
 			})
 		}
 	}
+	// every string literal of the tree under test laid around valid vectors (a magic prefix, suffix or infix)
+	if cfg.Cover {
+		ls, nl := literalStrings()
+		c.Extra["string_literals_of_the_tree"] = nl
+		c.Parallel("literal-strings", len(ls), 256, func(w *Worker, i int) {
+			do(w, StrCase{ls[i], -1, "literal-string"})
+		})
+	}
 	// corners of the packed representation (every field at its highest / lowest code) and everything 1-2 metrics away
 	if cfg.Cover {
 		for vi, api := range probe.APIs {
